@@ -1,10 +1,7 @@
-(* Extraction of the generated C25 definitions (one OCaml module per Coq file; Z stays the Coq datatype). *)
+(* Extraction of the generated C25 definitions: one OCaml module per Coq library (Gen_*.ml, CInt.ml, BinInt.ml ...);
+   Z, positive, nat stay the Coq datatypes (ExtrOcamlBasic only maps bool/option/unit/list/prod/sumbool/sumor). *)
 Require Extraction.
 Require Import ExtrOcamlBasic.
-Require LV.Gen.Gen_bit_reversal.
+Require LV.Gen.Gen_bit_reversal LV.Gen.Gen_bitop LV.Gen.Gen_int_algo LV.Gen.Gen_split.
 Set Extraction Output Directory ".".
-Separate Extraction
-  Gen_bit_reversal.swar_u32 Gen_bit_reversal.swar_u64 Gen_bit_reversal.lookup_u32 Gen_bit_reversal.lookup_u64
-  Gen_bit_reversal.muldiv32_byte Gen_bit_reversal.muldiv64_byte
-  Gen_bit_reversal.muldiv32_u32 Gen_bit_reversal.muldiv32_u64 Gen_bit_reversal.muldiv64_u32 Gen_bit_reversal.muldiv64_u64
-  Gen_bit_reversal.muldiv_u32 Gen_bit_reversal.muldiv_u64.
+Separate Extraction Gen_bit_reversal Gen_bitop Gen_int_algo Gen_split.
